@@ -81,6 +81,35 @@ def attr_design(a, name, tprefix, types):
             inner["val"] = leafval
         types.append({"name": tn, "kind": "object", "attrs": [inner]})
         att["type"] = {"kind": "user", "ref": tn}
+    elif nest == "mapkey_alias":
+        tn = tprefix + "Key"
+        t = {"name": tn, "kind": "alias", "base": prim}
+        if leafval:
+            t["val"] = leafval
+        types.append(t)
+        att["type"] = {"kind": "map", "key": {"kind": "user", "ref": tn}, "elem": {"kind": "int"}}
+    elif nest in ("nested_mapkey", "nested_elem"):
+        tn = tprefix + "Holder"
+        if nest == "nested_mapkey":
+            k = dict(prim)
+            if leafval:
+                k["val"] = leafval
+            inner = {"name": "m", "type": {"kind": "map", "key": k, "elem": {"kind": "int"}}}
+        else:
+            e = dict(prim)
+            if leafval:
+                e["val"] = leafval
+            inner = {"name": "l", "type": {"kind": "array", "elem": e}}
+        types.append({"name": tn, "kind": "object", "attrs": [inner]})
+        att["type"] = {"kind": "user", "ref": tn}
+    elif nest in ("elem_nested", "mapval_nested"):
+        tn = tprefix + "Item"
+        inner = {"name": "v", "type": prim, "required": True}
+        if leafval:
+            inner["val"] = leafval
+        types.append({"name": tn, "kind": "object", "attrs": [inner]})
+        ref = {"kind": "user", "ref": tn}
+        att["type"] = {"kind": "array", "elem": ref} if nest == "elem_nested" else {"kind": "map", "key": {"kind": "string"}, "elem": ref}
     if a["mode"] == "default":
         att["default"] = concrete_leaf(a, default_of(a))
     return att
@@ -163,6 +192,20 @@ def concrete(a, v):
             m["k%d" % (i + 1)] = filler(a)
         if cn >= 1:
             m["k%d" % cn] = leaf
+        return {"$map": m}
+    if nest == "mapkey_alias":
+        return {"$map": {keystr(leaf): 7}}
+    if nest == "nested_mapkey":
+        return {"m": {"$map": {keystr(leaf): 7}}}
+    if nest == "nested_elem":
+        return {"l": [filler(a)] * (cn - 1) + [leaf]}
+    if nest == "elem_nested":
+        return [{"v": filler(a)}] * (cn - 1) + [{"v": leaf}]
+    if nest == "mapval_nested":
+        m = {}
+        for i in range(cn - 1):
+            m["k%d" % (i + 1)] = {"v": filler(a)}
+        m["k%d" % cn] = {"v": leaf}
         return {"$map": m}
     raise ValueError(nest)
 
